@@ -7,6 +7,7 @@ package main
 
 import (
 	"fmt"
+	"strings"
 
 	kvql "github.com/c4pt0r/kvql"
 )
@@ -168,10 +169,28 @@ func runC10(c *runCtx) error {
 			c10Case(e, fmt.Sprintf("float_list(%s, %s)[0]", a, b), "index")
 		}
 	}
+	// long arguments: vectors / lists / texts well beyond anything a short enumeration reaches
+	for _, n := range []int{16, 17, 20, 33, 70} {
+		ones, zeros, asc := make([]string, n), make([]string, n), make([]string, n)
+		for i := 0; i < n; i++ {
+			ones[i], zeros[i], asc[i] = "1", "0", fmt.Sprint(i%7)
+		}
+		o, z, a := strings.Join(ones, ", "), strings.Join(zeros, ", "), strings.Join(asc, ", ")
+		c10Case(e, fmt.Sprintf("l2_distance(list(%s), list(%s))", o, z), "long")
+		c10Case(e, fmt.Sprintf("l2_distance(int_list(%s), list(%s))", a, z), "long")
+		c10Case(e, fmt.Sprintf("cosine_distance(list(%s), list(%s))", a, o), "long")
+		c10Case(e, fmt.Sprintf("len(int_list(%s))", a), "long")
+		c10Case(e, fmt.Sprintf("int_list(%s)[%d]", a, n-1), "long")
+		c10Case(e, fmt.Sprintf("join(',', %s)", a), "long")
+		c10Case(e, fmt.Sprintf("len(split(join(',', %s), ','))", a), "long")
+		c10Case(e, fmt.Sprintf("strlen(upper(join('', %s, key)))", strings.Join(ones, ", ")), "long")
+		c10Case(e, fmt.Sprintf("substr(join('', %s), %d, %d)", o, n-3, n+5), "long")
+	}
 	// arity
 	for _, x := range []string{"upper()", "upper(key, key)", "join()", "join(',')", "substr(key, 1)", "list()", "split(key)", "nosuchfn(key)", "len()"} {
 		c10Case(e, x, "arity")
 	}
+	c10StmtStream(e, c)
 	n := 300
 	if c.thorough() || c.search {
 		n = 6000
@@ -182,4 +201,78 @@ func runC10(c *runCtx) error {
 		c10Case(e, g.gen(t, 1+r.intn(3)), "random")
 	}
 	return e.flush()
+}
+
+// c10StmtStream: the same functions inside whole statements over a store of several batches
+// (80 pairs, batch size 32 and 7): state carried from one chunk to the next (cached columns,
+// parsed documents) shows only there.  Direct verdicts: batch drain = row drain, and every
+// returned column = the expression evaluated on that row's pair alone.
+func c10StmtStream(e *emitter, c *runCtx) {
+	kvs := [][2]string{}
+	for i := 0; i < 80; i++ {
+		doc := fmt.Sprintf(`{"id": %d, "tag": "t%d", "l": [%d, %d, "s%d"], "o": {"p": "q%d"}}`, i, i%7, i, i*2, i, i%5)
+		kvs = append(kvs, [2]string{fmt.Sprintf("k%02d", i), doc})
+	}
+	for i := 0; i < 80; i++ {
+		kvs = append(kvs, [2]string{fmt.Sprintf("m%02d", i), fmt.Sprintf("%d,a%d,%d", i, i%4, i*3)})
+	}
+	type q struct{ field, where string }
+	qs := []q{
+		{"json(value)['tag']", "key ^= 'k' & json(value)['tag'] = 't3'"},
+		{"json(value)['o']['p']", "key ^= 'k' & json(value)['o']['p'] != 'q0'"},
+		{"json(value)['l'][2]", "key ^= 'k' & json(value)['l'][2] ^= 's1'"},
+		{"split(value, ',')[1]", "key ^= 'm' & split(value, ',')[1] = 'a2'"},
+		{"len(split(value, ','))", "key ^= 'm' & int(split(value, ',')[0]) > 40"},
+		{"split('x,y,z', ',')[1]", "key ^= 'm'"},
+		{"len(split('x,y,z', ','))", "key ^= 'm' & len(split('x,y,z', ',')) = 3"},
+		{"json('{\"x\":{\"y\":\"deep\"}}')['x']['y']", "key ^= 'k'"},
+		{"upper(split(value, ',')[1]) + str(strlen(key))", "key ^= 'm' & substr(value, 0, 1) != '1'"},
+		{"int(split(value, ',')[2]) - int(split(value, ',')[0])", "key ^= 'm' & int(split(value, ',')[2]) / 3 = int(split(value, ',')[0])"},
+		{"l2_distance(list(1, 2, 3, 4, 5, 6, 7, 8, 9, 10, 11, 12, 13, 14, 15, 16, 17, 18), list(0, 0, 0, 0, 0, 0, 0, 0, 0, 0, 0, 0, 0, 0, 0, 0, 0, 0))", "key ^= 'm0'"},
+		{"join('-', split(value, ',')[0], split(value, ',')[1], strlen(value))", "key ^= 'm' & is_int(split(value, ',')[0])"},
+		{"list(int(split(value, ',')[0]), 2)[0]", "key ^= 'm' & float_list(split(value, ',')[0], 1)[0] > 10.5"},
+		{"int(str(int(split(value, ',')[0]) * 100000000000))", "key ^= 'm'"},
+	}
+	for qi, x := range qs {
+		query := fmt.Sprintf("select key, %s where %s", x.field, x.where)
+		fe, perr := parseField(x.field)
+		var rowRes runResult
+		for _, md := range []struct {
+			batch bool
+			B     int
+		}{{false, 32}, {true, 32}, {true, 7}} {
+			res := runQuery(query, newStore(kvs), md.batch, md.B, true)
+			rp := c10Replay{Expr: query, What: fmt.Sprintf("batch=%v B=%d store=160 pairs", md.batch, md.B)}
+			idx := e.add(fmt.Sprintf("Case (EBool 0 true) [] (* statement %d *)", qi), rp, true)
+			e.count("statement")
+			if res.Panic != "" {
+				e.fail(idx, "the statement panics: "+res.Panic, "C10/panic", rp)
+				continue
+			}
+			if !md.batch {
+				rowRes = res
+				if res.Err == nil && perr == nil {
+					for _, row := range res.Rows {
+						k, _ := row[0].([]byte)
+						v, _ := newStore(kvs).Get(k)
+						val, verr, pn := execRow(fe, string(k), string(v), false)
+						if verr != nil || pn != "" || canonCol(val) != canonCol(row[1]) {
+							rp.Key, rp.Row, rp.Fold = string(k), canonCol(row[1]), fmt.Sprint(canonCol(val), verr, pn)
+							e.fail(idx, "a select field differs from its expression evaluated on that row's pair", "C10/stmt-vs-expr", rp)
+							break
+						}
+					}
+				}
+				continue
+			}
+			if res.Err != nil {
+				e.count("batch_error")
+				continue
+			}
+			if rowRes.Err != nil || fmt.Sprint(canonRows(res.Rows)) != fmt.Sprint(canonRows(rowRes.Rows)) {
+				rp.Row, rp.Bat = fmt.Sprint(len(rowRes.Rows), " rows ", rowRes.Err), fmt.Sprint(len(res.Rows), " rows")
+				e.fail(idx, "draining the statement in batches gives other rows than row-at-a-time", "C10/row-vs-batch", rp)
+			}
+		}
+	}
 }
